@@ -54,7 +54,9 @@ pub struct ValueRef<'v> {
 // iterators.
 impl PartialEq for Value {
     fn eq(&self, other: &Self) -> bool {
-        self.ty == other.ty && self.raw_byte_iter().eq(other.raw_byte_iter())
+        // Compare the compact encoding: the raw bytes also contain sum padding and
+        // (for sub-values sharing a buffer) bits beyond the value's width.
+        self.ty == other.ty && self.iter_compact().eq(other.iter_compact())
     }
 }
 impl Eq for Value {}
@@ -68,7 +70,7 @@ impl Ord for Value {
     fn cmp(&self, other: &Self) -> core::cmp::Ordering {
         self.ty
             .cmp(&other.ty)
-            .then_with(|| self.raw_byte_iter().cmp(other.raw_byte_iter()))
+            .then_with(|| self.iter_compact().cmp(other.iter_compact()))
     }
 }
 
@@ -76,8 +78,8 @@ impl core::hash::Hash for Value {
     fn hash<H: core::hash::Hasher>(&self, h: &mut H) {
         b"Simplicity\x1fValue".hash(h);
         self.ty.hash(h);
-        for val in self.raw_byte_iter() {
-            val.hash(h);
+        for bit in self.iter_compact() {
+            bit.hash(h);
         }
     }
 }
